@@ -210,7 +210,7 @@ def sync_block(group, nthreads, events):
             else:
                 q = _qlist(qs[0])
                 obs = "Q %d %d %s" % (cidx[obj], len(q), " ".join(q))
-            lines.append("tick %d %s %s %s %s" % (e.actor, e.ctx, pid, _val(val), obs))
+            lines.append("tick %d %s %d %s %s %s" % (e.actor, e.ctx, e.w, pid, _val(val), obs))
             src.append(e)
     lines.append("end")
     src.append(None)
